@@ -217,7 +217,7 @@ class HistoryFamily:
             return f"Eval vm_compute in (run_lcase {n} {coq_heap(case['heap'])} {dom} [{'; '.join(qs)}] [{'; '.join(ops)}])."
         cs = []
         for q in case['pool']:
-            c = dict(heap=case['heap'], doms=[d for d in case['doms'] if d[0] in {b[1] for b in q['binders']}], binders=q['binders'],
+            c = dict(heap=case['heap'], doms=[d for d in case['doms'] if d[0] in ({b[1] for b in q['binders']} | {b[2] for b in q['binders'] if b[0] in ('concat', 'concatflat')})], binders=q['binders'],
                      sel=q['sel'], cond=q['cond'], wrappers=case.get('wrappers'))
             cs.append(coq_qcase(c))
         return f"Eval vm_compute in (run_qpool {n} [{'; '.join(cs)}])."
@@ -523,6 +523,26 @@ def lazy_history(H, rng, tier):
 
 def falsy_shared_history(H, rng, tier):
     """a pool whose queries reuse the SAME expression objects in condition position and in value position, on falsy-heavy data"""
+    if rng.random() < 0.2:
+        # the same attribute expression is a CONDITION in one query and is CONCATENATED (alone, or next to its variable's peer) in
+        # another: the concatenation holds every value, the falsy ones included, whichever query was built / evaluated first
+        nobj = rng.randint(2, 5)
+        heap = gen_query.gen_heap(rng, nobj, True)
+        for o in heap:
+            o[0] = rng.choice([0, 0, 1, 2])
+            o[4] = rng.choice([None, 0, 2])
+            o[5] = rng.choice([False, True])
+            o[2] = rng.choice(['', 'u'])
+            o[8] = o[0] >= 2
+        f = rng.choice(['a', 'n', 'f', 's'])
+        t = ['map', ['f', gen_query.F[f]], ['var', 1]]
+        dom = rng.sample(range(nobj), rng.randint(1, nobj))
+        q1 = dict(sel=[['var', 1]], cond=['truth', t], binders=[['var', 1]], form='entity')
+        q2 = dict(sel=[['concat', 6, t]], cond=None, binders=[['concat', 6, 1, t]], form='entity')
+        pool = [q1, q2] if rng.random() < 0.5 else [q2, q1]
+        ops = [[rng.choice(['full', 'full', 'take']), rng.randrange(2)] for _ in range(rng.randint(0, 2))]
+        ops = [o + [1] if o[0] == 'take' else o for o in ops] + [['full', 0], ['full', 1]]
+        return dict(kind='multi', heap=heap, doms=[[1, dom]], pool=pool, ops=ops, share_terms=True, list_items=False)
     c = H.gen_multi(rng, tier)
     c['share_terms'] = True
     for o in c['heap']:
